@@ -4,7 +4,7 @@ out=$1; shift; mkdir -p $out
 one() { seed=$1; out=$2; p=${seed%-*}
   d=$(mktemp -d /tmp/own-$seed-XXXX); git -C /repo archive HEAD | tar -x -C $d
   (cd $d && git init -q . && git apply /verif/seeded/$seed/patch.diff) || { echo "$seed APPLY-FAILED"; rm -rf $d; return; }
-  o=$(cd /verif && VERIF_REPO=$d VERIF_OUT_DIR=$d/_out timeout 2400 ./check $p 2>&1 | grep -v '^WARNING')
+  o=$(cd ${VERIF_HOME:-/verif} && VERIF_REPO=$d VERIF_OUT_DIR=$d/_out timeout 2400 ./check $p 2>&1 | grep -v '^WARNING')
   echo "$o" > $out/$seed.log
   v=$(echo "$o" | grep -c '^VIOLATION'); nf=$(echo "$o" | grep '^VIOLATION' | grep -c no-failing-input-found); ce=$(echo "$o" | grep -c 'CHECKER-ERROR')
   echo "$seed violations=$v without-witness=$nf checker-errors=$ce :: $(echo "$o" | grep 'failed-obligation' | head -2 | cut -c1-150 | tr '\n' '|')"
